@@ -81,6 +81,9 @@ def check(model: Model, run: Run) -> None:
                        "bit-field constants agree. The arithmetic equalities of the property are NOT decided by this check")
     fns = [fi for fq, fi in model.functions.items() if fi.module == ASN1 and not isinstance(fi.node, ast.Lambda)]
     run.floor("asn1 functions", len(fns), 30)
+    from ..commonrules import memoised_results_are_immutable
+    memoised_results_are_immutable(model, run, "S14-no-memoised-mutable-octets", [ASN1],
+                                   "the octets one call appends to are the octets the next call starts from")
     # a private generator helper every use of which was expanded in place (nothing refers to it any more) is judged at those
     # expansions, with the arguments of each call site; its own text has no caller to take parameter facts from
     def expanded_away(fi) -> bool:
@@ -397,23 +400,49 @@ def must_pass(stmts: List[ast.stmt], hit) -> bool:
     return all(e_) and all(r_)
 
 
+def writer_buffer(model: Model):
+    """The attribute of self that ASN1Writer's write_* methods fill, and the private methods of the writer they fill it through
+    (`self._append(octets)`): (buffer text, {helper name: FuncInfo})."""
+    from collections import Counter
+    wr = model.cls(f"{ASN1}.ASN1Writer")
+
+    def extends(node):
+        return [norm(c.func.value) for c in ast.walk(node) if isinstance(c, ast.Call) and isinstance(c.func, ast.Attribute) and c.func.attr in ("extend", "append")
+                and norm(c.func.value).startswith("self.") and norm(c.func.value).count(".") == 1] + \
+               [norm(a.target) for a in ast.walk(node) if isinstance(a, ast.AugAssign) and isinstance(a.op, ast.Add) and norm(a.target).startswith("self.") and norm(a.target).count(".") == 1]
+    writers = [m_ for m_ in wr.methods.values() if m_.name.startswith("write_") and not isinstance(m_.node, ast.Lambda)]
+    ext = Counter(x for m_ in writers for x in extends(m_.node))
+    helpers = {}
+    for m_ in writers:
+        for c in ast.walk(m_.node):
+            if isinstance(c, ast.Call) and isinstance(c.func, ast.Attribute) and isinstance(c.func.value, ast.Name) and c.func.value.id == "self" and c.func.attr.startswith("_") \
+                    and not c.func.attr.startswith("__"):
+                h = wr.methods.get(c.func.attr)
+                if h is not None and not isinstance(h.node, ast.Lambda) and extends(h.node):
+                    helpers[h.name] = h
+                    for x in extends(h.node):
+                        ext[x] += 1
+    if not ext:
+        raise AnalysisError("ASN1Writer.write_* methods do not extend an attribute of self")
+    buf = ext.most_common(1)[0][0]
+    helpers = {k: h for k, h in helpers.items() if buf in extends(h.node)}
+    return buf, helpers
+
+
 def writes_unconditional(model: Model, run: Run, rule: str = "S8-every-write-reaches-the-buffer") -> None:
     """S8: in ASN1Writer and every subclass of it, each write_* method adds to the writer's buffer (or hands over to another
     write_* of the same object) on every path that returns normally.  A write that can return without having written is a
     silently dropped value: the caller's message is encoded with a component missing."""
-    from collections import Counter
     wq = f"{ASN1}.ASN1Writer"
     wr = model.cls(wq)
-    ext = Counter(norm(c.func.value) for m_ in wr.methods.values() if m_.name.startswith("write_") for c in ast.walk(m_.node)
-                  if isinstance(c, ast.Call) and isinstance(c.func, ast.Attribute) and c.func.attr == "extend" and norm(c.func.value).startswith("self."))
-    if not ext:
-        raise AnalysisError("ASN1Writer.write_* methods do not extend an attribute of self")
-    buf = ext.most_common(1)[0][0]
+    buf, helpers = writer_buffer(model)
 
     def hit(x) -> bool:
         if isinstance(x, ast.Call) and isinstance(x.func, ast.Attribute):
             if norm(x.func.value) == buf and x.func.attr in ("extend", "append", "__iadd__"):
                 return True
+            if isinstance(x.func.value, ast.Name) and x.func.value.id == "self" and x.func.attr in helpers:
+                return True          # the helper is judged below, once, as a writer of its own
             if x.func.attr.startswith("write_") and (isinstance(x.func.value, ast.Name) and x.func.value.id == "self" or
                                                      isinstance(x.func.value, ast.Call) and norm(x.func.value.func) == "super"):
                 return True
@@ -423,7 +452,7 @@ def writes_unconditional(model: Model, run: Run, rule: str = "S8-every-write-rea
     n = 0
     for cq in model.subclasses(wq):
         for m_ in model.classes[cq].methods.values():
-            if not m_.name.startswith("write_") or isinstance(m_.node, ast.Lambda):
+            if not (m_.name.startswith("write_") or m_.name in helpers) or isinstance(m_.node, ast.Lambda):
                 continue
             n += 1
             ok = must_pass(m_.node.body, hit)
@@ -511,13 +540,7 @@ def constructed_flush(model: Model, run: Run) -> None:
             return [ast.Attribute(value=o, attr=e.attr, ctx=ast.Load()) for b in binds[e.value.id] for o in origins(b, depth + 1)]
         return [e]
     # the buffer the write_* methods fill: the attribute of self that most of them extend
-    from collections import Counter
-    wr = model.cls(f"{ASN1}.ASN1Writer")
-    ext = Counter(norm(c.func.value) for m_ in wr.methods.values() if m_.name.startswith("write_") for c in ast.walk(m_.node)
-                  if isinstance(c, ast.Call) and isinstance(c.func, ast.Attribute) and c.func.attr == "extend" and norm(c.func.value).startswith("self."))
-    if not ext:
-        raise AnalysisError("ASN1Writer.write_* methods do not extend an attribute of self")
-    buf = ext.most_common(1)[0][0]
+    buf, _helpers = writer_buffer(model)
     pparams = pk.node.args.posonlyargs + pk.node.args.args
     pairs = [(pparams[i], a) for i, a in enumerate(call.args) if i < len(pparams)] + [(p_, k.value) for k in call.keywords for p_ in pparams if p_.arg == k.arg]
     run.floor("arguments of the packing routine at the flush", len(pairs), 2)
@@ -658,6 +681,34 @@ def integer_contents_are_signed(model: Model, run: Run, rule: str = "S11-integer
         raise AnalysisError(f"{he.name} neither hands over to {hi.name} nor uses int.from_bytes: a hand-written ENUMERATED decoder is outside what S11 can judge")
     run.ob(rule, True, {"enumerated_reader_shares_integer_reader": reader_shares, "writer_shares": writer_shares})
     run.coverage["int_from_bytes_on_contents"] = n
+    # the handover is a plain one: ENUMERATED contents are INTEGER contents, so the ENUMERATED routine asks the INTEGER routine for
+    # nothing the INTEGER API itself does not ask for - a parameter pinned to a constant other than its default (signed=False,
+    # minimal=False ...) makes the two kinds decode / encode the same octets differently
+    for src, dst, side in ((he, hi, "reader"), (we, wi, "writer")):
+        if src is None or dst is None or src is dst:
+            continue
+        a = dst.node.args
+        pos = a.posonlyargs + a.args
+        dfl = {p_.arg: d_ for p_, d_ in zip(pos[len(pos) - len(a.defaults):], a.defaults)}
+        dfl.update({p_.arg: d_ for p_, d_ in zip(a.kwonlyargs, a.kw_defaults) if d_ is not None})
+        names = [p_.arg for p_ in pos]
+        for f in reachable(model, src):
+            if isinstance(f.node, ast.Lambda) or f is dst:
+                continue
+            for c in walk_no_nested(f.node):
+                if not (isinstance(c, ast.Call) and isinstance(c.func, ast.Name) and model.resolve_name(f.module, c.func.id) == dst.qualname):
+                    continue
+                bound = dict(zip(names, c.args))
+                bound.update({k.arg: k.value for k in c.keywords if k.arg})
+                for pn, v in bound.items():
+                    d_ = dfl.get(pn)
+                    if isinstance(v, ast.Constant) and isinstance(d_, ast.Constant) and type(v.value) in (bool, int, type(None)) and v.value != d_.value:
+                        run.ob(rule, False, {"handover": f"{f.name} -> {dst.name}", "parameter": pn})
+                        run.fail(Finding(rule, f.qualname, f"{dst.name}({pn}={norm(v)})", f"the ENUMERATED {side} hands over to the INTEGER {side} with `{pn}={norm(v)}` where INTEGER itself uses "
+                                         f"`{pn}={norm(d_)}`: the same content octets mean one number as an INTEGER and another as an ENUMERATED, although both are written by "
+                                         "the same two's-complement routine", model.loc(f.module, c)))
+                    else:
+                        run.ob(rule, True, {"handover": f"{f.name} -> {dst.name}", "parameter": pn})
 
 
 def hand_built_integer_content(model: Model, run: Run, mr) -> None:
